@@ -43,7 +43,8 @@ def run(chk, w):
     chk.rule("C07-STRIDE", "a loop that reads a byte list at several offsets per iteration advances by at least the width of that window")
     nwin = 0
     for f in P.repo_functions():
-        if not (f.relfile.startswith("src/state/") or f.relfile.startswith("src/transmission/")):
+        # list payloads are interpreted by the state setters; sentinel scans of the address stack (transmission utilities) are not records
+        if not f.relfile.startswith("src/state/"):
             continue
         for h, body in f.loops().items():
             ind, ind_store = _induction(f, body)
